@@ -72,6 +72,15 @@ CHECKS = {
              "that relative address (same reader on both sides). No i686 fixture survives in this sandbox.",
         technique="Coq proof (loop invariant `chain` by induction on fuel; termination measure) with the decoder as a section-variable oracle + differential correspondence run evaluated by vm_compute",
         design="4/C20"),
+    "C18": dict(
+        text="Coq theorems C18_no_prefix_no_cors (every request whose path does not begin with /token - any method, path, Access-Control-Request-* headers, with or without a "
+             "profile - gets no Access-Control-* header and only the landing page (GET /) or an empty 404), C18_prefix_characterised, C18_prefix_dispatch and C18_token_shape "
+             "(24 bytes, regenerated from the source, encode to 39 characters of the 32-symbol alphabet; the encoder model reproduces the crate's own test vector). "
+             "Tied to the real server: `samply load` is started several times, ~600 raw HTTP requests per run are classified and checker + model are evaluated in Coq; tokens of all runs are distinct.",
+        note="Trusted: Coq kernel; hyper's parsing (uri().path() is the raw path); Python raw-socket client. Not provable: unpredictability of the token (entropy of rand::rng()); "
+             "injectivity of the base32 encoding is not proved (only length and alphabet). has_profile = false is proved but unreachable from the CLI.",
+        technique="Coq proof (case analysis of the routing function over all methods/paths/headers; encoder length/alphabet) + end-to-end correspondence run against the running server, evaluated by vm_compute",
+        design="4/C18"),
 }
 
 NOT_YET = "check not built yet in this development (planned: see DESIGN.md section 4); no claim is made"
